@@ -110,7 +110,8 @@ def run(module, cfg, name=None, workers=16, timeout=600, simulate=None, depth=No
     os.makedirs(meta, exist_ok=True)
     if not os.path.isabs(cfg):
         cfg = os.path.join(specdir, cfg)
-    jopts = ["-XX:+UseParallelGC", "-Xmx" + heap]
+    # (java.io.tmpdir: TLC leaves an empty tlc-<n> directory per run in the JVM's temporary directory)
+    jopts = ["-XX:+UseParallelGC", "-Xmx" + heap, "-Djava.io.tmpdir=" + meta]
     if dfs:
         jopts.append("-Dtlc2.tool.queue.IStateQueue=StateDeque")
     cmd = ["java"] + jopts + ["-cp", JAR, "tlc2.TLC", "-workers", str(workers), "-metadir", meta,
